@@ -702,6 +702,20 @@ pub fn build_walker(
             if !*rooted && ups > depth_of(&w.base) {
                 return Err(format!("glob {:?} from base {:?} would leave the world", expr, w.base));
             }
+            // ... nor climb from a base that is, or lies beyond, a link (the kernel climbs from the
+            // link's target)
+            if !*rooted && ups > 0 {
+                let mut p: &str = &w.base;
+                loop {
+                    if sc.tree.iter().any(|n| n.path == p && matches!(n.kind, Kind::Link { .. })) {
+                        return Err(format!("glob {:?} climbs from base {:?}, which passes through a link", expr, w.base));
+                    }
+                    if p.is_empty() {
+                        break;
+                    }
+                    p = parent(p);
+                }
+            }
             let text = glob_text(expr, *rooted, &world.root_text);
             // Walks whose expressions are the same text are built from one `Glob` value, which then
             // outlives them (a `Glob` is made to be reused); any other `Glob` is dropped as soon as
